@@ -24,7 +24,7 @@
 //! is_approved_for_all(o, op) are compared with the model for all ids and all ordered pairs
 //! (an expired approval has to read none / false).
 
-use soroban_sdk::testutils::Address as _;
+use soroban_sdk::testutils::{Address as _, Ledger as _};
 use soroban_sdk::{Address, Env, IntoVal, String as SString, TryFromVal, Val, Vec as SVec};
 use std::collections::{BTreeMap, BTreeSet};
 use vh::auth::{self, call_mocked, call_signed, view};
@@ -260,6 +260,10 @@ struct Nft {
     start: u32,
     /// start from a state with approvals already in place (some overwritten by shorter ones)
     seeded: bool,
+    /// minimal lifetime of a temporary entry: 1 (an entry lives exactly as long as asked for) or
+    /// the network default 16 (an entry outlives a short live_until_ledger, so that only the
+    /// contract's explicit expiry comparison stands between an expired approval and the token)
+    min_temp_ttl: u32,
 }
 
 struct Inst {
@@ -527,7 +531,13 @@ impl World for Nft {
             Flavour::Enumerable => "nft-enumerable",
             Flavour::Consecutive => "nft-consecutive",
         };
-        format!("{f}/{}{}@{}", self.cfg.label, if self.seeded { "+approvals-seeded" } else { "" }, self.start)
+        format!(
+            "{f}/{}{}{}@{}",
+            self.cfg.label,
+            if self.seeded { "+approvals-seeded" } else { "" },
+            if self.min_temp_ttl != 1 { format!("+min-temp-ttl-{}", self.min_temp_ttl) } else { String::new() },
+            self.start
+        )
     }
 
     fn seed_name(&self, _seed: usize) -> String {
@@ -540,6 +550,9 @@ impl World for Nft {
 
     fn fresh(&self, _seed: usize) -> (Inst, Model) {
         let e = envx::mk_env(self.start);
+        if self.min_temp_ttl != 1 {
+            e.ledger().set_min_temp_entry_ttl(self.min_temp_ttl);
+        }
         let acc: [Address; 4] = [Address::generate(&e), Address::generate(&e), Address::generate(&e), Address::generate(&e)];
         let adm = Address::generate(&e);
         for x in acc.iter() {
@@ -921,32 +934,44 @@ fn main() {
         let only = std::env::var("C11_ONLY").unwrap_or_default();
         let envd = |k: &str, d: usize| -> usize { std::env::var(k).ok().and_then(|x| x.parse().ok()).unwrap_or(d) };
         let flavours = [Flavour::Base, Flavour::Enumerable, Flavour::Consecutive];
-        let run = |r: &mut Runner, w: Nft, depth: usize, wall: u64| {
+        // one wall-clock budget per tier, shared by the worlds (each world gets what is left)
+        let t0 = std::time::Instant::now();
+        let budget: u64 = tier.pick(42, 570);
+        let run = |r: &mut Runner, w: Nft, depth: usize| {
             if only.is_empty() || w.name().contains(&only) {
-                r.world(&w, &Bounds::new(depth, wall));
+                let left = budget.saturating_sub(t0.elapsed().as_secs()).max(1);
+                r.world(&w, &Bounds::new(depth, left));
             }
         };
+        let world = |f: Flavour, cfg: Cfg, seeded: bool| Nft { flavour: f, cfg, start: 100, seeded, min_temp_ttl: 1 };
+        let world16 = |f: Flavour, cfg: Cfg| Nft { flavour: f, cfg, start: 100, seeded: false, min_temp_ttl: 16 };
         match tier {
             Tier::Quick => {
                 for f in flavours {
-                    run(r, Nft { flavour: f, cfg: cfg_narrow(&ONE_LIVE), start: 100, seeded: false }, envd("C11_D", 4), 40);
+                    run(r, world(f, cfg_narrow(&ONE_LIVE), false), envd("C11_D", 4));
                 }
                 for f in flavours {
-                    run(r, Nft { flavour: f, cfg: cfg_narrow(&ALL_LIVES), start: 100, seeded: true }, envd("C11_DS", 3), 40);
+                    run(r, world(f, cfg_narrow(&TWO_LIVES), true), envd("C11_DS", 3));
+                }
+                for f in flavours {
+                    run(r, world16(f, cfg_narrow(&ONE_LIVE)), envd("C11_D16", 3));
                 }
             }
             Tier::Thorough => {
                 for f in flavours {
-                    run(r, Nft { flavour: f, cfg: cfg_narrow(&ONE_LIVE), start: 100, seeded: false }, envd("C11_D", 5), 500);
+                    run(r, world(f, cfg_narrow(&ONE_LIVE), false), envd("C11_D", 5));
                 }
                 for f in flavours {
-                    run(r, Nft { flavour: f, cfg: cfg_narrow(&ALL_LIVES), start: 100, seeded: false }, envd("C11_D3", 4), 500);
+                    run(r, world(f, cfg_narrow(&ALL_LIVES), false), envd("C11_D3", 4));
                 }
                 for f in flavours {
-                    run(r, Nft { flavour: f, cfg: cfg_wide(), start: 100, seeded: false }, envd("C11_DW", 3), 500);
+                    run(r, world(f, cfg_wide(), false), envd("C11_DW", 3));
                 }
                 for f in flavours {
-                    run(r, Nft { flavour: f, cfg: cfg_narrow(&TWO_LIVES), start: 100, seeded: true }, envd("C11_DS", 4), 500);
+                    run(r, world(f, cfg_narrow(&TWO_LIVES), true), envd("C11_DS", 4));
+                }
+                for f in flavours {
+                    run(r, world16(f, cfg_narrow(&ONE_LIVE)), envd("C11_D16", 4));
                 }
             }
         }
